@@ -299,6 +299,7 @@ type linCtx struct {
 	// extra facts attached to atoms (Intn results, induction …)
 	atomFacts map[string][]cons
 	depth     int
+	vi        map[string]ssa.Value
 }
 
 func newLinCtx(c *Ctx, fn *ssa.Function) *linCtx {
@@ -343,6 +344,9 @@ func (lc *linCtx) canon(v ssa.Value) string {
 			case *ssa.IndexAddr:
 				return lc.canon(a.X) + "[" + lc.of(a.Index).String() + "]"
 			case *ssa.Alloc:
+				if v := singleCellValue(a); v != nil {
+					return lc.canon(v)
+				}
 				return "*" + a.Name() + ":" + a.Comment
 			case *ssa.FreeVar:
 				return "*^" + a.Name()
@@ -368,6 +372,47 @@ func (lc *linCtx) canon(v ssa.Value) string {
 		return lc.canon(x.X) + "{" + lc.canonKey(x.Index) + "}"
 	}
 	return v.Name() + "@" + shortFn(v)
+}
+
+// singleCellValue: the address-taken local is stored exactly once (its
+// initialisation, e.g. a captured parameter) and no closure stores to it:
+// every load yields that value.
+func singleCellValue(a *ssa.Alloc) ssa.Value {
+	var val ssa.Value
+	n := 0
+	refs := a.Referrers()
+	if refs == nil {
+		return nil
+	}
+	for _, r := range *refs {
+		switch s := r.(type) {
+		case *ssa.Store:
+			if s.Addr != ssa.Value(a) {
+				return nil
+			}
+			n++
+			val = s.Val
+		case *ssa.UnOp, *ssa.DebugRef:
+		case *ssa.MakeClosure:
+			cf, _ := s.Fn.(*ssa.Function)
+			if cf == nil {
+				return nil
+			}
+			for i, b := range s.Bindings {
+				if b == ssa.Value(a) && i < len(cf.FreeVars) {
+					if closureStoresTo(cf, cf.FreeVars[i], map[*ssa.Function]bool{}) {
+						return nil
+					}
+				}
+			}
+		default:
+			return nil
+		}
+	}
+	if n != 1 {
+		return nil
+	}
+	return val
 }
 
 func shortFn(v ssa.Value) string {
@@ -770,7 +815,20 @@ func (lc *linCtx) cellLoad(u *ssa.UnOp) lin {
 				}
 			case *ssa.UnOp:
 			case *ssa.MakeClosure:
-				okAll = false // may be written by the closure
+				// captured by reference: fine as long as the closure (and
+				// closures nested in it) never store to the variable
+				cf, _ := s.Fn.(*ssa.Function)
+				if cf == nil {
+					okAll = false
+					break
+				}
+				for i, b := range s.Bindings {
+					if b == ssa.Value(a) && i < len(cf.FreeVars) {
+						if closureStoresTo(cf, cf.FreeVars[i], map[*ssa.Function]bool{}) {
+							okAll = false
+						}
+					}
+				}
 			case *ssa.DebugRef:
 			default:
 				okAll = false
@@ -947,8 +1005,36 @@ func (lc *linCtx) inductionFacts(p *ssa.Phi) []cons {
 			}
 			continue
 		}
-		if _, self := l.t[atom]; self {
-			return nil
+		if v, self := l.t[atom]; self {
+			if v != 1 {
+				return nil
+			}
+			// symbolic step: i = φ(init, i + s); the sign of s is taken from
+			// the conditions that dominate the loop header (s must not
+			// depend on the loop)
+			step := l.clone()
+			delete(step.t, atom)
+			H := lc.hypAtBlock(p.Block())
+			if !entails(H, consLE(linConst(0), step, "step >= 0")) {
+				allUp = false
+			}
+			if !entails(H, consLE(step, linConst(0), "step <= 0")) {
+				allDown = false
+			}
+			if !allUp && !allDown {
+				return nil
+			}
+			for _, a := range step.atoms() {
+				if v, ok := valueIndexCached(lc)[a]; ok {
+					if in, ok := v.(ssa.Instruction); ok && in.Block() != nil && p.Block().Dominates(in.Block()) && in.Block() != p.Block() {
+						return nil // step computed inside the loop
+					}
+					if _, isPhi := v.(*ssa.Phi); isPhi {
+						return nil
+					}
+				}
+			}
+			continue
 		}
 		inits = append(inits, l)
 	}
@@ -1020,6 +1106,13 @@ func (lc *linCtx) factsFor(forms []lin, byName map[string]ssa.Value) []cons {
 		}
 	}
 	return out
+}
+
+func valueIndexCached(lc *linCtx) map[string]ssa.Value {
+	if lc.vi == nil {
+		lc.vi = valueIndex(lc.fn)
+	}
+	return lc.vi
 }
 
 // valueIndex maps atom names of SSA registers to their values (for induction).
